@@ -408,6 +408,40 @@ theorem sessionHandler_grant (name : Nat → String) (hinj : Function.Injective 
   · have h1' : hasRequiredClaims b = false := by simpa using h1
     simp [h1'] at hr
 
+/-! ## End to end over the translated handlers: a granted cancellation makes the TRANSLATED session handler refuse the booking -/
+
+theorem isDenied_after_deny (reg : Deny.Reg) (b : String) (e : Int) : Deny.isDenied (Deny.step reg (.deny b e)) b = true := by
+  simp [Deny.isDenied, Deny.step]
+
+/-- run the translated `denyHandler` (granted), then the translated `sessionHandler` on the configuration it returns, for ANY bearer
+    of that booking whose token is otherwise perfectly good: the answer is 400 and no code is minted (the stores are untouched) -/
+theorem translated_deny_then_session_refused (name : Nat → String) (hinj : Function.Injective name) (w w' : Go.World)
+    (gcfg : Gen.access.Config) (cfg : Access.Config) (s : Access.St) (h : SessCfgOk name gcfg cfg s.reg s.codes)
+    (hw : TieTtlCode.WorldOk name w s.codes) (hg : TieTtlCode.Good s.codes)
+    (admin : Bearer) (hadmin : isRelayAdmin admin = true) (b : String) (e : Int) (hb : b ≠ "") (he : ¬ e < s.reg.now)
+    (t : Bearer) (id : String) (ht1 : hasRequiredClaims t = true) (ht2 : (t.iat.isNone || t.nbf.isNone) = false) (ht3 : t.topic = id)
+    (ht4 : t.bid = b) :
+    let afterDeny := (Gen.access.denyHandler w gcfg { Bid := b, Exp := e } (prin admin)).2.1
+    let r := Gen.access.sessionHandler w' afterDeny { SessionID := id } (prin t)
+    r.1.code = 400 ∧ r.2 = afterDeny := by
+  have hd := (denyHandler_tie name hinj w gcfg s.reg s.codes h.stores hw hg b e admin).2.2.2 hadmin hb he
+  obtain ⟨_, _, hcfg'⟩ := hd
+  -- the model state after the deny
+  let s' : Access.St := { s with reg := Deny.step s.reg (.deny b e), codes := (TtlCode.step s.codes (.deleteByBooking b)).1 }
+  have hs' : SessCfgOk name (Gen.access.denyHandler w gcfg { Bid := b, Exp := e } (prin admin)).2.1 cfg s'.reg s'.codes := by
+    refine ⟨hcfg', ?_, ?_⟩
+    · have := h.nobid
+      simp [Gen.access.denyHandler] at this ⊢
+      split <;> (try split) <;> (try split) <;> simp_all
+    · have := h.target
+      simp [Gen.access.denyHandler] at this ⊢
+      split <;> (try split) <;> (try split) <;> simp_all
+  have href : sessionRefusal cfg s' t id = some 400 := by
+    have hden : Deny.isDenied s'.reg t.bid = true := by rw [ht4]; exact isDenied_after_deny s.reg b e
+    have hbid : ¬ (t.bid = "" ∧ (!cfg.allowNoBid) = true) := by rw [ht4]; exact fun hh => hb hh.1
+    simp [sessionRefusal, ht1, ht2, ht3, hbid, hden]
+  exact sessionHandler_refusal name w' _ cfg s' hs' t id 400 href
+
 theorem coverage : Gen.access.untranslated = [] ∧
     Gen.access.translated = ["allowHandler", "claimsCheck", "denyHandler", "hasStatsScope", "isRelayAdmin", "listAllowedHandler", "listDeniedHandler",
       "sessionHandler"] ∧
